@@ -333,7 +333,7 @@ def compare(real, model, prefix, where, pos_tol=0.0, order="exact", coeff_eq=Non
         if (ra.pair is None) != (ma.pair is None) or (ra.pair is not None and not coeff_eq(ra.pair, ma.pair)):
             bad("atom-pair-coeffs", "atom %d resolves to pair coefficients %r, expected %r" % (perm[mi], ra.pair, ma.pair))
         if check_extras:
-            for lab in set(ma.extras) | set(ra.extras):
+            for lab in sorted(set(ma.extras) | set(ra.extras)):
                 if ra.extras.get(lab, ".") != ma.extras.get(lab, "."):
                     bad("atom-extra-field", "atom %d column %r is %r, expected %r" % (perm[mi], lab, ra.extras.get(lab, "."), ma.extras.get(lab, ".")))
     if check_extras:
